@@ -115,6 +115,68 @@ theorem dfs_closed (e : Eng) (hwf : WF e) (idx : Nat) :
     (by intro pre x post h; cases pre <;> simp at h) (by intro x; simp)
   exact ⟨p.closed, p.direct⟩
 
+/-! ### the DFS list is exactly the set of transitive dependencies -/
+
+/-- `Reach e i y`: `y` is a transitive dependency of `i` -/
+inductive Reach (e : Eng) : Nat → Nat → Prop
+  | direct {i d : Nat} : d ∈ deps e i → Reach e i d
+  | step {i z d : Nat} : Reach e i z → d ∈ deps e z → Reach e i d
+
+theorem reach_head {e : Eng} {i d y : Nat} (hd : d ∈ deps e i) (h : Reach e d y) : Reach e i y := by
+  induction h with
+  | direct h' => exact Reach.step (Reach.direct hd) h'
+  | step _ h' ih => exact Reach.step ih h'
+
+/-- soundness of one call: what it adds to the list is reachable from `idx` -/
+theorem rec_sound (e : Eng) : ∀ (f idx : Nat) (st : St) (y : Nat), y ∈ (rec e f idx st).dfs → y ∈ st.dfs ∨ Reach e idx y := by
+  intro f
+  induction f with
+  | zero => intro idx st y h; exact Or.inl h
+  | succ f ih =>
+    intro idx st y h
+    unfold rec at h
+    have key : ∀ (ds : List Nat) (s : St), (∀ d, d ∈ ds → d ∈ deps e idx) →
+        ∀ y, y ∈ (ds.foldl (fun st dep =>
+          let st' := rec e f dep st
+          if dep ∈ st'.mark then st' else { dfs := st'.dfs ++ [dep], mark := dep :: st'.mark }) s).dfs →
+        y ∈ s.dfs ∨ Reach e idx y := by
+      intro ds
+      induction ds with
+      | nil => intro s _ y h; exact Or.inl h
+      | cons d ds ihd =>
+        intro s hd y hy
+        simp only [List.foldl_cons] at hy
+        have hdi : d ∈ deps e idx := hd d (by simp)
+        have hrest := ihd _ (fun z hz => hd z (by simp [hz])) y hy
+        rcases hrest with h1 | h1
+        · -- y is in the state after processing d
+          have hin : y ∈ (rec e f d s).dfs ∨ y = d := by
+            by_cases hm : d ∈ (rec e f d s).mark
+            · simp only [hm, if_true] at h1; exact Or.inl h1
+            · simp only [hm, if_false, List.mem_append, List.mem_singleton] at h1; exact h1
+          rcases hin with h2 | rfl
+          · rcases ih d s y h2 with h3 | h3
+            · exact Or.inl h3
+            · exact Or.inr (reach_head hdi h3)
+          · exact Or.inr (Reach.direct hdi)
+        · exact Or.inr h1
+    exact key (deps e idx) st (fun d h => h) y h
+
+theorem mem_dfs_iff (e : Eng) (hwf : WF e) (idx y : Nat) : y ∈ dfsDepSearch e idx ↔ Reach e idx y := by
+  constructor
+  · intro h
+    rcases rec_sound e (idx + 1) idx ⟨[], []⟩ y h with h' | h'
+    · cases h'
+    · exact h'
+  · intro h
+    obtain ⟨hc, hd⟩ := dfs_closed e hwf idx
+    induction h with
+    | direct h' => exact hd _ h'
+    | step _ h' ih =>
+      obtain ⟨pre, post, hsplit⟩ := List.append_of_mem ih
+      have := hc pre _ post hsplit _ h'
+      rw [hsplit]; simp [this]
+
 -- non-vacuity: a diamond  0 ; 1→0 ; 2→0 ; 3→{2,1}
 example : dfsDepSearch [[], [0], [0], [2, 1]] 3 = [0, 2, 1] := by decide
 example : WF [[], [0], [0], [2, 1]] := by
